@@ -292,4 +292,47 @@ theorem readerAux_exit {μ : Type} (obf : Bool) (decode : Bytes → Option μ) :
             exact ⟨m :: ms, c, by rw [h]; simp⟩
           · exact ⟨ms, c, h⟩
 
+theorem readerSilentAux_succ {μ : Type} (obf : Bool) (decode : Bytes → Option μ) (fuel : Nat) (s : Bytes) :
+    readerSilentAux obf decode (fuel + 1) s =
+      if s.length < hdrSize obf then [.closed .timeout]
+      else
+        if (s.drop (hdrSize obf)).length < frameLen obf (s.take (hdrSize obf)) then [.closed .timeout]
+        else
+          match decode (plain obf (s.take (hdrSize obf) ++ (s.drop (hdrSize obf)).take (frameLen obf (s.take (hdrSize obf))))) with
+          | some m => .deliver m :: readerSilentAux obf decode fuel ((s.drop (hdrSize obf)).drop (frameLen obf (s.take (hdrSize obf))))
+          | none => readerSilentAux obf decode fuel ((s.drop (hdrSize obf)).drop (frameLen obf (s.take (hdrSize obf)))) := by
+  rfl
+
+theorem hdrSize_pos (obf : Bool) : 0 < hdrSize obf := by unfold hdrSize; split <;> omega
+
+/-- the same bytes followed by silence instead of EOF: the same deliveries, then the read time-out -/
+theorem readerSilentAux_spec {μ : Type} (obf : Bool) (decode : Bytes → Option μ) : ∀ (fuel : Nat) (s : Bytes),
+    ∃ (ms : List μ) (c : Close), readerAux obf decode fuel s = ms.map Event.deliver ++ [Event.closed c] ∧
+      readerSilentAux obf decode fuel s = ms.map Event.deliver ++ [Event.closed .timeout]
+  | 0, s => ⟨[], .readError, by simp [readerAux], by simp [readerSilentAux]⟩
+  | fuel + 1, s => by
+    rw [readerAux_succ, readerSilentAux_succ]
+    have hp := hdrSize_pos obf
+    by_cases he : s.isEmpty
+    · have hlt : s.length < hdrSize obf := by
+        have : s = [] := by simpa using he
+        subst this; simpa using hp
+      rw [if_pos he, if_pos hlt]
+      exact ⟨[], .eof, by simp, by simp⟩
+    · by_cases hh : s.length < hdrSize obf
+      · rw [if_neg he, if_pos hh, if_pos hh]
+        exact ⟨[], .readError, by simp, by simp⟩
+      · by_cases hb : (s.drop (hdrSize obf)).length < frameLen obf (s.take (hdrSize obf))
+        · by_cases hbe : (s.drop (hdrSize obf)).isEmpty
+          · rw [if_neg he, if_neg hh, if_pos hb, if_pos hbe, if_neg hh, if_pos hb]
+            exact ⟨[], .eof, by simp, by simp⟩
+          · rw [if_neg he, if_neg hh, if_pos hb, if_neg hbe, if_neg hh, if_pos hb]
+            exact ⟨[], .readError, by simp, by simp⟩
+        · obtain ⟨ms, c, h1, h2⟩ := readerSilentAux_spec obf decode fuel
+            ((s.drop (hdrSize obf)).drop (frameLen obf (s.take (hdrSize obf))))
+          rw [if_neg he, if_neg hh, if_neg hb, if_neg hh, if_neg hb]
+          cases decode (plain obf (s.take (hdrSize obf) ++ (s.drop (hdrSize obf)).take (frameLen obf (s.take (hdrSize obf))))) with
+          | some m => exact ⟨m :: ms, c, by rw [h1]; simp, by rw [h2]; simp⟩
+          | none => exact ⟨ms, c, h1, h2⟩
+
 end AioslskVerif.Stream
